@@ -85,6 +85,20 @@ def run(ctx):
                       "%s writes `registers` with something other than max(old, new) / zero-fill: %s" % (m.name, fmt(v)[:200] if v else w.get("name")))
     ctx.floor("R17-max-only", n, 3, "writers of registers (add_hashed, merge, clear)")
 
+    # the join must be applied on every call: exactly one registers store on every returning path of add_hashed
+    from ..paths import PathEnumerator
+    pe = PathEnumerator(ah, prog, ctx.summ)
+    npaths, bad = 0, 0
+    for p in pe.paths():
+        if p.exit_kind != "return":
+            continue
+        npaths += 1
+        st = [e for e in p.events if e["kind"] == "write" and self_field(e) == "registers" and e["how"] == "store"]
+        if len(st) != 1:
+            bad += 1
+    ctx.check(npaths >= 1 and bad == 0, "R17-max-only", ah.key + ":unconditional", ah, "registers[j] = max(old, p) is executed on every path (%d)" % npaths,
+              "add_hashed skips the register update on %d of %d paths: a conditional update makes the register depend on the order of adds" % (bad, npaths))
+
     # ---- index / rank ------------------------------------------------------------------------
     tb = TermBuilder(ah, prog)
     idxs = w_index_terms(ctx, ah)
